@@ -87,14 +87,18 @@ pub open spec fn gather<T>(s: Seq<T>, idx: Seq<usize>) -> Seq<T> {
     Seq::new(idx.len(), |i: int| s[idx[i] as int])
 }
 
-// r is the Mann-Whitney AUC of (y_true, scores) for the ascending arrangement idx of the scores
-pub open spec fn auc_for_arrangement<T: RealNumber>(y_true: Seq<T>, scores: Seq<T>, idx: Seq<usize>, r: T) -> bool {
+// idx arranges the scores in ascending order (idx is a permutation of 0..n)
+pub open spec fn ascending_arrangement<T: PartialOrd>(scores: Seq<T>, idx: Seq<usize>) -> bool {
+    is_argsort_of(scores, gather(scores, idx), idx)
+}
+
+// the Mann-Whitney AUC of (y_true, scores) computed from the ascending arrangement idx of the scores
+pub open spec fn mann_whitney_auc<T: RealNumber>(y_true: Seq<T>, scores: Seq<T>, idx: Seq<usize>) -> T {
     let n = y_true.len() as int;
-    &&& is_argsort_of(scores, gather(scores, idx), idx)
-    &&& r == mann_whitney(
-            pos_rank_sum(y_true, idx, mid_ranks(gather(scores, idx)), n),
-            t_count::<T>(count_one(y_true, n)),
-            t_count::<T>(count_zero(y_true, n)))
+    mann_whitney(
+        pos_rank_sum(y_true, idx, mid_ranks(gather(scores, idx)), n),
+        t_count::<T>(count_one(y_true, n)),
+        t_count::<T>(count_zero(y_true, n)))
 }
 
 // ------------------------------------------------------------------------------------------------
@@ -207,7 +211,8 @@ impl AUC {
         ensures
             // for an ascending arrangement idx of the scores (the one the sort produced): the result is
             // (sum of the mid-ranks of the positives - pos (pos + 1) / 2) / (pos * neg)
-            exists|idx: Seq<usize>| #[trigger] auc_for_arrangement(y_true.vview(), y_pred_prob.vview(), idx, res), //# auc-is-mann-whitney-with-mid-ranks
+            exists|idx: Seq<usize>| #[trigger] ascending_arrangement(y_pred_prob.vview(), idx)
+                && res == mann_whitney_auc(y_true.vview(), y_pred_prob.vview(), idx), //# auc-is-mann-whitney-with-mid-ranks
 //@enter
         proof { T::ops_total(); }
 //@loop 1
@@ -245,7 +250,7 @@ impl AUC {
                         i < j <= n,
                         forall|m: int| i < m < j ==> (#[trigger] y_pred@[m]).eq_spec(&y_pred@[i as int]),
                     decreases n - j
-//@before let r = T::from_usize(i + 1 + j)
+//@before let r = 
                 proof {
                     // the block [i, j) is the tie group of each of its positions, and it has at least two entries
                     assert(y_pred@[i as int].eq_spec(&y_pred@[i + 1]));
@@ -267,6 +272,11 @@ impl AUC {
                         forall|k: int| i <= k < i + VERUS_ghost_iter.index@ ==> #[trigger] rank@[k] == r,
                         forall|k: int| i <= k < j ==> *final(VERUS_ghost_iter.seq()[k - i]) == #[trigger] rank@[k],
                         forall|k: int| 0 <= k < n && !(i <= k < j) ==> #[trigger] rank@[k] == rank0[k],
+//@before let mut auc = T::zero();
+        proof {
+            assert(rank@ =~= mid_ranks(y_pred@));
+            assert(ascending_arrangement(y_pred_prob.vview(), label_idx@));
+        }
 //@loop 5
             invariant
                 T::obeys_eq_spec(), T::obeys_add_assign_spec(),
@@ -277,12 +287,6 @@ impl AUC {
                 n == y_pred_prob.vview().len(),
                 is_argsort_of(y_pred_prob.vview(), y_pred@, label_idx@),
                 auc == pos_rank_sum(y_true.vview(), label_idx@, rank@, i as int),
-//@before (auc - (pos * (pos + T::one()) / T::two())) / (pos * neg)
-        proof {
-            assert(rank@ =~= mid_ranks(y_pred@));
-            assert(auc_for_arrangement(y_true.vview(), y_pred_prob.vview(), label_idx@,
-                (auc.sub_spec(pos.mul_spec(pos.add_spec(T::one_spec())).div_spec(T::two_spec()))).div_spec(pos.mul_spec(neg))));
-        }
 //@end
 }
 } // verus!
